@@ -40,7 +40,7 @@ ANCHORS = [
 REQUIRED = ["greedy_allocations_judged", "rr_allocations_judged", "uncontrolled_judged", "continuous_grants_judged", "discrete_grants_judged",
             "grant_strictly_between_bounds", "grant_limited_by_constraint_continuous", "grant_limited_by_constraint_discrete",
             "rr_blocked_by_constraint", "preprocessing_observed", "sort:fcfs", "sort:lcfs", "sort:edf", "sort:llf", "sort:lrpt",
-            "positive_lower_bounds", "order_differs_from_arrival_order", "several_constraints_tight", "allocations_after_an_edit"]
+            "positive_lower_bounds", "order_differs_from_arrival_order", "several_constraints_tight", "allocations_after_an_edit", "runs_on_predefined_sites"]
 BUDGET_S = {"quick": 270, "thorough": 3300}
 EPS = 0.01
 
@@ -64,6 +64,10 @@ def cases(seed, tier):
         if rng.random() < 0.25:
             d["edits"] = gen.rand_edits(rng, d["network"], max(s_["departure"] for s_ in d["sessions"]))
         out.append({"desc": d, "T0": rng.choice([0, 0, 3, 6]), "pre_seed": rng.randrange(1 << 30)})
+    # the predefined sites (real three-phase wiring behind transformers, pods and sub-panels), a dozen or more sessions competing
+    for i in range(10 if tier == "quick" else 300):
+        out.append({"site": ["caltech", "jpl", "office001"][i % 3], "basic": i % 2 == 0, "seed": rng.randrange(1 << 30), "distinct": True,
+                    "sort": gen.SORTS[i % 5], "algo": ("greedy", "rr")[(i // 3) % 2], "ests": [None, None, "fixed"], "T0": 0})
     return out
 
 
@@ -124,6 +128,11 @@ def make_switch(inner, sd, net_desc, T0):
 
 
 def run_case(case, obs):
+    site_net = None
+    if "site" in case:
+        d, site_net = build.site_scenario(case)
+        case = dict(case, desc=d)
+        obs.ev("runs_on_predefined_sites")
     d = case["desc"]
     sd = d["scheduler"]
     ids, A, L, ang, names = oracles.dense_rows(d["network"])
@@ -138,7 +147,7 @@ def run_case(case, obs):
         top = make_switch(inner, pre_sd, d["network"], T0)
     else:
         top = inner
-    sim, evs = build.build_sim(d, scheduler=top)
+    sim, evs = build.build_sim(d, scheduler=top, network=site_net)
     net = sim.network
     records, prep = [], {}
 
